@@ -146,6 +146,7 @@ class SimulatorImaging:
                 fill_value=self.noise_if_add_noise_false,
                 shape_native=image.shape_native,
                 pixel_scales=image.pixel_scales,
+                origin=image.origin,
             )
 
         if np.isnan(noise_map).any():
